@@ -1,7 +1,11 @@
 import CppUModel.Base.Proto
 import CppUModel.Model.AllocLayout
+import CppUModel.Model.AllocLayoutCode
 /-!
-Driver for C05: replays harness traces through the allocation-layout model and judges the
+Driver for C05: replays harness traces through the allocation-layout model — every detector call
+(`allocMemory`, `reallocMemory`, `deallocMemory`, `storeLeakInformation`) is executed by the statement
+lists REGENERATED from the current source (`Gen/AllocLayoutCode.lean`, interpreter
+`Model/AllocLayoutCode.lean`) — and judges the
 implementation's observations with the property's specification oracle (a shadow table of live
 blocks with their expected contents, Nat arithmetic, independent of the model).
 Environment inputs (what the platform / the recording allocator answered) are read from the
@@ -96,7 +100,67 @@ def recOf (s : State) (id : Nat) : Option Rec := s.tracked.find? (fun r => r.id 
 def W.of (n : Nat) : W := BitVec.ofNat 64 n
 
 def freeAll (c : Cfg) (s : State) : State :=
-  s.tracked.foldl (fun st r => (release c st r.fam (some r.id) (r.fam == famMalloc)).1) s
+  s.tracked.foldl (fun st r => (releaseGen c st r.fam (some r.id) r.sep).1) s
+
+/-- `allocatNodesSeperately` of a private-detector operation: the public wrappers' choice, or the explicit word -/
+def sepWord (f : Nat) : Option String → Option Bool
+  | none => some (f == famMalloc)
+  | some "0" => some false
+  | some "1" => some true
+  | some _ => none
+
+/-- private-detector `allocMemory`, replayed through the statement list REGENERATED from the source -/
+def modelAlloc (d : DState) (obs : List (List String)) (fam size seed : String) (sepw : Option String) : DState × List String :=
+  let c := d.cfg
+  match famOf fam, size.toNat?, seed.toNat? with
+  | some f, some n, some sd =>
+    match sepWord f sepw with
+    | some sep =>
+      let (s1, evs, out) := allocMemoryGen c (nodeImg c) d.det f (W.of n) sep (ansOf false (obsNums obs "ualloc").head?) (ansOf false (obsNums obs "unode").head?)
+      let (s2, wl) := match out with
+        | .ptr id => userWrite s1 id sd 0 n
+        | _ => (s1, [])
+      ({ d with det := s2 }, evs.flatMap (renderEv false false) ++ renderOutcome out ++ wl ++ [s!"total {s2.tracked.length}"])
+    | none => (d, ["bad-op"])
+  | _, _, _ => (d, ["bad-op"])
+
+def modelRealloc (d : DState) (obs : List (List String)) (fam old size seed : String) (sepw : Option String) : DState × List String :=
+  let c := d.cfg
+  match famOf fam, old.toNat?, size.toNat?, seed.toNat? with
+  | some f, some o, some n, some sd =>
+    match sepWord f sepw with
+    | some sep =>
+      let oldSize := ((recOf d.det o).map (·.size.toNat)).getD 0
+      let ptr := if o == 0 then none else some o
+      let (s1, evs, out) := reallocMemoryGen c (nodeImg c) d.det f ptr (W.of n) sep (ransOf d.det.mem (obsNums obs "urealloc").head?) (ansOf false (obsNums obs "unode").head?)
+      let keep := min oldSize n
+      let (s2, wl) := match out with
+        | .ptr id =>
+          let (s2, wl) := userWrite s1 id sd keep n
+          (s2, [contentLine (userBytes s1 id keep)] ++ wl)
+        | _ => (s1, [])
+      -- environment: realloc(p, 0) released the block although it answered NULL
+      let pf := (obsNums obs "platform-freed").filterMap List.head?
+      let s3 := { s2 with mem := pf.foldl dropBlock s2.mem }
+      ({ d with det := s3 }, (evs.flatMap (renderEv false false)).flatMap (fun l => if l.startsWith "urealloc" then l :: pf.map (fun i => s!"platform-freed {i}") else [l])
+         ++ renderOutcome out ++ wl ++ [s!"total {s3.tracked.length}"])
+    | none => (d, ["bad-op"])
+  | _, _, _, _ => (d, ["bad-op"])
+
+def modelFree (d : DState) (fam id : String) (sepw : Option String) : DState × List String :=
+  match famOf fam, id.toNat? with
+  | some f, some i =>
+    match sepWord f sepw with
+    | some sep =>
+      let (s1, evs, out) := releaseGen d.cfg d.det f (some i) sep
+      let ubl := match out with | .ub why => [s!"ub {why}"] | _ => []
+      ({ d with det := s1 }, evs.flatMap (renderEv false false) ++ ubl ++ [s!"total {s1.tracked.length}"])
+    | none => (d, ["bad-op"])
+  | _, _ => (d, ["bad-op"])
+
+/-- the `mem_leak_operator_new*` function a `gnew` form ends up in (the `(file, int line)` overloads share the debug variants) -/
+def variantOfForm (v : String) : Option NewVariant :=
+  findVariant ("mem_leak_operator_" ++ (if v == "new_debug_int" then "new_debug" else if v == "new_array_debug_int" then "new_array_debug" else v))
 
 def modelStep (d : DState) (op : List String) (obs : List (List String)) : DState × List String :=
   let c := d.cfg
@@ -113,40 +177,14 @@ def modelStep (d : DState) (op : List String) (obs : List (List String)) : DStat
     ({ d with cfg := c' }, [s!"cfg {c'.guard.toNat} {c'.node.toNat} {if c'.check then 1 else 0}"])
   | ["fail", _, _] => (d, [])
   | ["skip"] => (d, [])
-  | ["alloc", fam, size, seed] =>
-    match famOf fam, size.toNat?, seed.toNat? with
-    | some f, some n, some sd =>
-      let (s1, evs, out) := allocMemory c ni d.det f (W.of n) (f == famMalloc) (ansOf false ual) (ansOf false uno)
-      let (s2, wl) := match out with
-        | .ptr id => userWrite s1 id sd 0 n
-        | _ => (s1, [])
-      ({ d with det := s2 }, evs.flatMap (renderEv false false) ++ renderOutcome out ++ wl ++ [s!"total {s2.tracked.length}"])
-    | _, _, _ => (d, ["bad-op"])
-  | ["realloc", fam, old, size, seed] =>
-    match famOf fam, old.toNat?, size.toNat?, seed.toNat? with
-    | some f, some o, some n, some sd =>
-      let oldSize := ((recOf d.det o).map (·.size.toNat)).getD 0
-      let ptr := if o == 0 then none else some o
-      let (s1, evs, out) := reallocMemory c ni d.det f ptr (W.of n) (f == famMalloc) (ransOf d.det.mem ure) (ansOf false uno)
-      let keep := min oldSize n
-      let (s2, wl) := match out with
-        | .ptr id =>
-          let (s2, wl) := userWrite s1 id sd keep n
-          (s2, [contentLine (userBytes s1 id keep)] ++ wl)
-        | _ => (s1, [])
-      -- environment: realloc(p, 0) released the block although it answered NULL
-      let pf := (obsNums obs "platform-freed").filterMap List.head?
-      let s3 := { s2 with mem := pf.foldl dropBlock s2.mem }
-      ({ d with det := s3 }, (evs.flatMap (renderEv false false)).flatMap (fun l => if l.startsWith "urealloc" then l :: pf.map (fun i => s!"platform-freed {i}") else [l])
-         ++ renderOutcome out ++ wl ++ [s!"total {s3.tracked.length}"])
-    | _, _, _, _ => (d, ["bad-op"])
-  | ["free", fam, id] =>
-    match famOf fam, id.toNat? with
-    | some f, some i =>
-      let (s1, evs, out) := release c d.det f (some i) (f == famMalloc)
-      let ubl := match out with | .ub why => [s!"ub {why}"] | _ => []
-      ({ d with det := s1 }, evs.flatMap (renderEv false false) ++ ubl ++ [s!"total {s1.tracked.length}"])
-    | _, _ => (d, ["bad-op"])
+  | ["alloc", fam, size, seed] => modelAlloc d obs fam size seed none
+  | ["allocx", fam, size, seed, sep] => modelAlloc d obs fam size seed (some sep)
+  | ["realloc", fam, old, size, seed] => modelRealloc d obs fam old size seed none
+  | ["reallocx", fam, old, size, seed, sep] => modelRealloc d obs fam old size seed (some sep)
+  | ["free", fam, id] => modelFree d fam id none
+  | ["freex", fam, id, sep] => modelFree d fam id (some sep)
+  | ["gcrashalloc", _] => (d, [])
+  | ["gthreadsafe", _] => (d, [])
   | ["peek", id, size] =>
     match id.toNat?, size.toNat? with
     | some i, some n => (d, [contentLine (userBytes d.det i n)])
@@ -161,7 +199,7 @@ def modelStep (d : DState) (op : List String) (obs : List (List String)) : DStat
     match size.toNat?, seed.toNat? with
     | some n, some sd =>
       let a1 := if d.oom then Ans.null else ansOf true pms.head?
-      let (s1, evs, out) := cMalloc c ni d.glob (W.of n) a1 (ansOf true (pms.drop 1).head?)
+      let (s1, evs, out) := cMallocGen c ni d.glob (W.of n) a1 (ansOf true (pms.drop 1).head?)
       let (s2, wl) := match out with
         | .ptr id => userWrite s1 id sd 0 n
         | _ => (s1, [])
@@ -172,7 +210,7 @@ def modelStep (d : DState) (op : List String) (obs : List (List String)) : DStat
     match num.toNat?, size.toNat?, seed.toNat? with
     | some k, some n, some sd =>
       let a1 := if d.oom then Ans.null else ansOf true pms.head?
-      let (s1, evs, out) := cCalloc c ni d.glob (W.of k) (W.of n) a1 (ansOf true (pms.drop 1).head?)
+      let (s1, evs, out) := cCallocGen c ni d.glob (W.of k) (W.of n) a1 (ansOf true (pms.drop 1).head?)
       let tot := (W.of k * W.of n).toNat
       let (s2, wl) := match out with
         | .ptr id =>
@@ -187,7 +225,7 @@ def modelStep (d : DState) (op : List String) (obs : List (List String)) : DStat
     | some o, some n, some sd =>
       let oldSize := ((recOf d.glob o).map (·.size.toNat)).getD 0
       let ptr := if o == 0 then none else some o
-      let (s1, evs, out) := cRealloc c ni d.glob ptr (W.of n) (ransOf d.glob.mem ure) (if d.oom then Ans.null else ansOf true pms.head?)
+      let (s1, evs, out) := cReallocGen c ni d.glob ptr (W.of n) (ransOf d.glob.mem ure) (if d.oom then Ans.null else ansOf true pms.head?)
       let keep := min oldSize n
       let (s2, wl) := match out with
         | .ptr id =>
@@ -207,8 +245,8 @@ def modelStep (d : DState) (op : List String) (obs : List (List String)) : DStat
       let a1 := if d.oom then Ans.null else ansOf true pms.head?
       let a2 := ansOf true (pms.drop 1).head?
       let (s1, evs, out) := match nOpt with
-        | none => cStrdup c ni d.glob buf a1 a2
-        | some n => cStrndup c ni d.glob buf (W.of n) a1 a2
+        | none => cStrdupGen c ni d.glob buf a1 a2
+        | some n => cStrndupGen c ni d.glob buf (W.of n) a1 a2
       let cl := match out with
         | .ptr id => [contentLine (userBytes s1 id (((recOf s1 id).map (·.size.toNat)).getD 0))]
         | _ => []
@@ -218,21 +256,21 @@ def modelStep (d : DState) (op : List String) (obs : List (List String)) : DStat
   | ["gfree", id] =>
     match id.toNat? with
     | some i =>
-      let (s1, evs, _) := cFree c d.glob (some i)
+      let (s1, evs, _) := cFreeGen c d.glob (some i)
       ({ d with glob := s1 }, evs.flatMap (renderEv true false) ++ [s!"delta {(s1.tracked.length : Int) - d.glob.tracked.length}"])
     | none => (d, ["bad-op"])
-  | ["gdelete", id] =>
+  | ["gdelete", id] | ["gdeletex", _, id] =>
     match id.toNat? with
     | some i =>
       let f := ((recOf d.glob i).map (·.fam)).getD famNew
-      let (s1, evs, _) := operatorDelete c d.glob (f == famNewArray) (some i)
+      let (s1, evs, _) := operatorDeleteGen c d.glob (f == famNewArray) (some i)
       ({ d with glob := s1 }, evs.flatMap (renderEv true false) ++ [s!"delta {(s1.tracked.length : Int) - d.glob.tracked.length}"])
     | none => (d, ["bad-op"])
   | ["gnew", v, size, seed] =>
-    match findVariant ("mem_leak_operator_" ++ v), size.toNat?, seed.toNat? with
+    match variantOfForm v, size.toNat?, seed.toNat? with
     | some var, some n, some sd =>
       let a1 := if d.nullnew then Ans.null else ansOf true pms.head?
-      let (s1, evs, out) := operatorNew c ni d.glob var (W.of n) a1 (ansOf true (pms.drop 1).head?)
+      let (s1, evs, out) := operatorNewGen c ni d.glob var (W.of n) a1 (ansOf true (pms.drop 1).head?)
       let (s2, wl) := match out with
         | .ptr id => userWrite s1 id sd 0 n
         | _ => (s1, [])
@@ -380,7 +418,7 @@ def decodeReq (sh : Shadow) (op : List String) : Except String Req :=
     match size.toNat?, seed.toNat? with
     | some n, some sd =>
       pure ⟨s!"operator {v}({n})", some n, sh.check,
-            if v == "new_array" || v == "new_array_nothrow" || v == "new_array_debug" then 1 else 0,
+            if v == "new_array" || v == "new_array_nothrow" || v == "new_array_debug" || v == "new_array_debug_int" then 1 else 0,
             none, some n, v == "new_nothrow" || v == "new_array_nothrow", !(v == "new_nothrow" || v == "new_array_nothrow"),
             fun _ => patRange sd 0 n⟩
     | _, _ => throw "bad gnew"
@@ -400,12 +438,16 @@ def specStep (sh : Shadow) (o : Proto.Op) : Except String Shadow := do
   | ["skip"] => return sh
   | ["goom", w] => return { sh with oom := w == "on" }
   | ["gnullnew", w] => return { sh with nullnew := w == "on" }
-  | ["alloc", fam, size, seed] =>
+  | ["gcrashalloc", _] => return sh
+  | ["gthreadsafe", _] => return sh
+  | "alloc" :: fam :: size :: seed :: [] | "allocx" :: fam :: size :: seed :: [_] =>
     let some f := famOf fam | throw "bad alloc"
     let some n := size.toNat? | throw "bad alloc"
     let some sd := seed.toNat? | throw "bad alloc"
     if !ms.isEmpty then throw s!"alloc({n}) reported misuse {ms}"
-    let inline := f != 2 && sh.check
+    -- the record is inline unless the caller asked for a separate node (the malloc family; `allocx … 1`) or the build forces it
+    let sepAsked := match o.op with | ["allocx", _, _, _, w] => w == "1" | _ => f == 2
+    let inline := !sepAsked && sh.check
     match retOf obs with
     | .ptr id off =>
       if overflows sh n inline then throw s!"alloc({n}): size overflows once bookkeeping is added, yet a block was returned"
@@ -415,12 +457,13 @@ def specStep (sh : Shadow) (o : Proto.Op) : Except String Shadow := do
     | .missing => return sh      -- the implementation died: reported as a crash
     | .unknown => throw s!"alloc({n}): returned pointer is not inside a block the platform handed out"
     | _ => checkFailed sh obs s!"alloc({n})" false; return sh
-  | ["realloc", fam, old, size, seed] =>
+  | "realloc" :: fam :: old :: size :: seed :: [] | "reallocx" :: fam :: old :: size :: seed :: [_] =>
     let some f := famOf fam | throw "bad realloc"
     let some oid := old.toNat? | throw "bad realloc"
     let some n := size.toNat? | throw "bad realloc"
     let some sd := seed.toNat? | throw "bad realloc"
-    let inline := f != 2 && sh.check
+    let sepAsked := match o.op with | ["reallocx", _, _, _, _, w] => w == "1" | _ => f == 2
+    let inline := !sepAsked && sh.check
     let oldB := sh.live.find? (fun b => b.id == oid && !b.glob)
     if oid != 0 && oldB.isNone then
       -- stale pointer: one report, NULL, nothing changes
@@ -444,7 +487,7 @@ def specStep (sh : Shadow) (o : Proto.Op) : Except String Shadow := do
     | .missing => return sh
     | .unknown => throw s!"realloc({n}): returned pointer is not inside a block the platform handed out"
     | _ => checkFailed sh obs s!"realloc({n})" false; return sh
-  | ["free", _, id] =>
+  | ["free", _, id] | ["freex", _, id, _] =>
     let some i := id.toNat? | throw "bad free"
     match sh.live.find? (fun b => b.id == i && !b.glob) with
     | some _ =>
@@ -509,7 +552,7 @@ def specStep (sh : Shadow) (o : Proto.Op) : Except String Shadow := do
     | .unknown => throw s!"cpputest_realloc({n}): returned pointer is not inside a block the platform handed out"
     | .missing => return sh
     | _ => checkFailed sh obs s!"cpputest_realloc({n})" true; return sh
-  | ["gfree", id] | ["gdelete", id] =>
+  | ["gfree", id] | ["gdelete", id] | ["gdeletex", _, id] =>
     let some i := id.toNat? | throw "bad gfree"
     if !ms.isEmpty then throw s!"release of live block {i} reported misuse {ms}"
     if ((obsNums obs "pf").filter (· == [i])).length != 1 then
